@@ -8,6 +8,7 @@ import (
 	"math/rand"
 	"os"
 	"path/filepath"
+	"sort"
 	"strings"
 
 	"github.com/yaricom/goNEAT/v4/neat"
@@ -370,6 +371,23 @@ func BuildGenome(t *Tape, spec GenomeSpec) *genetics.Genome {
 	if len(genes) == 0 {
 		addGene(sensors[0], outs[0], false, true)
 		genes[0].IsEnabled = true
+	}
+	// Unusual but legal layout: node ids need not put the sensors first. The ids are permuted after everything else was
+	// drawn (so tape value 0 = the canonical layout) and the node list is re-sorted by id.
+	if t.Chance("layout.shuffled", 1, 5) {
+		sub := t.Sub("layout.seed")
+		ids := make([]int, len(nodes))
+		for i := range ids {
+			ids[i] = i + 1
+		}
+		for i := len(ids) - 1; i > 0; i-- {
+			j := sub.Intn(i + 1)
+			ids[i], ids[j] = ids[j], ids[i]
+		}
+		for i, n := range nodes {
+			n.Id = ids[i]
+		}
+		sort.Slice(nodes, func(a, b int) bool { return nodes[a].Id < nodes[b].Id })
 	}
 	return genetics.NewGenome(1, traits, nodes, genes)
 }
